@@ -92,6 +92,12 @@ def run_case(case, res: Result):
         return
     final = reply_bytes(st, code, text, how)
     body = DATA[op] if (op in DATA_OPS and st == "OK") else b""
+    # priming: an earlier NO with its own code and text on the same client, so that values
+    # left over from a previous reply cannot pass for the ones of the reply under test
+    srv.canned = [b'NO (PRIMER-CODE) "primer text"\r\n']
+    pr = sess.call("deletescript", "primer")
+    if pr != ("ret", False) or sess.client.errcode != b"PRIMER-CODE":
+        res.count("primer-not-mirrored")
     srv.canned = [body + final, b'OK "sentinel one"\r\n',
                   b'NO (SENTINEL-7) "sentinel two"\r\n']
     args = BOOL_OPS.get(op) or DATA_OPS[op]
